@@ -558,6 +558,32 @@ def clause6_group_bits(ctx, P):
            "up to %s groups can be registered, a group mask has %d bits" % (lim, width))
 
 
+def clause8_switched_on(ctx, P):
+    """has_access() lets everything pass while the group registry does not exist ('no credential file'): so a loaded credential
+    file implies an existing registry - every successful path of load_passwd_data() for a given file name has called
+    create_groups() and seen it succeed, whatever the file contains (a file in which no user names a group still restricts)"""
+    f = P.fn("auth_file.c:load_passwd_data")
+    ha = P.fn("groups.c:has_access")
+    open_door = any(v.ret_const() not in (0, None) and v.has_atom(lambda a, p: a[0] == "cmp" and a[3] == ("null",) and a[2][0] == "load" and
+                                                                   a[2][1][0] == "global" and Q._poleq(a, p)) for v in Q.path_views(ctx, P, ha))
+    bad = None
+    n = 0
+    for v in Q.path_views(ctx, P, f):
+        if v.ret_const() != 0:
+            continue
+        if v.has_atom(lambda a, p: a[0] == "cmp" and a[2] == ("param", 0, f.params[0]["name"]) and a[3] == ("null",) and Q._poleq(a, p)):
+            continue    # no file given
+        n += 1
+        created = any(v.has_atom(lambda a, p, c=c: a[0] == "cmp" and a[2][0] == "call" and a[2][3] == c.id and a[3] == ("const", 0) and
+                                 (a[1] if p else Q.negate_pred(a[1])) in ("sge", "eq")) for _, c in v.calls("create_groups"))
+        if not created:
+            bad = v
+    ctx.ob("C08.1 R-ORDER", f, "loaded-file-implies-group-registry", (bad is None and n > 0) or not open_door,
+           "load_passwd_data() can succeed without a successful create_groups(): has_access() answers 'yes' to everybody while the "
+           "registry does not exist, so with a credential file in which no user names a group nothing is protected",
+           witness=bad.witness() if bad else None)
+
+
 def run(ctx):
     for cfg in ctx.configs():
         P, cg = cfg.P, cfg.cg
@@ -568,3 +594,4 @@ def run(ctx):
         clause3_disclosure(ctx, P)
         clause4_taint(ctx, P, cg)
         clause5_origin(ctx, P)
+        clause8_switched_on(ctx, P)
